@@ -30,6 +30,16 @@ def run(chk):
          P("c.ics", ux), P("z.ics", ux)],
         [P("a.ics", ua), ("del", "a.ics", "none"), P("b.ics", ub), P("a.ics", ux), ("del", "b.ics", "none"), P("a.ics", ux)],
     ]
+    # a calendar object declared as something else: read back by its extension it is a calendar object resource,
+    # so it may not take a UID that is held, and it keeps other writes from taking its own
+    junk = toks.tok(b"this is not a calendar")
+    Q = lambda n, ct, t: ("put", n, ct, t, "none")
+    probes += [
+        [P("a.ics", ua), Q("b.ics", "application/octet-stream", ub), Q("c.ics", "text/plain", ux), ("restart",),
+         P("d.ics", ub), ("del", "a.ics", "none"), Q("e.ics", "application/octet-stream", ub), P("f.ics", ux)],
+        [Q("s.ics", "application/octet-stream", ua), P("t.ics", ub), Q("j.ics", "application/octet-stream", junk),
+         ("restart",), P("u.ics", ux)],
+    ]
     run_templates(chk, probes + tmpls, toks, PREFIXES)
     # the same property through the server: PUT and POST (add-member, content types with parameters)
     run_http_templates(chk, Tokens(), 4 if chk.tier == "quick" else 40, 30, "mixed", PREFIXES)
